@@ -892,8 +892,11 @@ def run_dao(s, o):
                       brightest=o['brightest'], peakmax=_q(o['peakmax'], o), xycoords=o['xycoords'],
                       min_separation=o['min_separation'], **kw)
     t = f(s[o['on']], mask=_mask(s, o))
-    # documented footprint of a row = the kernel cutout around its peak (+1: centroid vs peak pixel)
-    return _table_out(t, f.kernel.xradius + 1, f.kernel.yradius + 1)
+    # documented footprint of a row = the kernel cutout around its PEAK pixel. The table only reports the centroid,
+    # which DAOFIND lets sit up to one kernel half-size from the peak pixel (|dx| <= hsize; seen: 2.06 px with a
+    # 5x5 kernel, cutout reaching one column beyond the frame while centroid +- (radius+1) was inside), so the
+    # footprint around the centroid is twice the radius (+1 for rounding to the peak pixel)
+    return _table_out(t, 2 * f.kernel.xradius + 1, 2 * f.kernel.yradius + 1)
 
 
 def prep_iraf(rng, scene):
@@ -916,7 +919,7 @@ def run_iraf(s, o):
                        brightest=o['brightest'], peakmax=_q(o['peakmax'], o), xycoords=o['xycoords'],
                        min_separation=o['min_separation'], **kw)
     t = f(s[o['on']], mask=_mask(s, o))
-    return _table_out(t, f.kernel.xradius + 1, f.kernel.yradius + 1)
+    return _table_out(t, 2 * f.kernel.xradius + 1, 2 * f.kernel.yradius + 1)   # centroid within the cutout of the peak
 
 
 def prep_starfinder(rng, scene):
@@ -937,7 +940,7 @@ def run_starfinder(s, o):
     f = StarFinder(_q(o['threshold'], o), kern, min_separation=o['min_separation'],
                    exclude_border=o['exclude_border'], brightest=o['brightest'], peakmax=_q(o['peakmax'], o))
     t = f(s[o['on']], mask=_mask(s, o))
-    return _table_out(t, kern.shape[1] // 2 + 1, kern.shape[0] // 2 + 1)
+    return _table_out(t, 2 * (kern.shape[1] // 2) + 1, 2 * (kern.shape[0] // 2) + 1)   # as for run_dao
 
 
 # ----------------------------------------------------------------------
@@ -1312,7 +1315,7 @@ SPEC_PROFILE = {
     'profile_error': K('free', per_row=False, unit='data'), 'area': K('free', per_row=False),
     # 1-D Gaussian fit to the profile: measured max relative deviation 4e-14 (1000 profiles); tolerance 1e-8
     'gaussian_fwhm': K('free', per_row=False, rtol=1e-8), 'gaussian_params': K('free', per_row=False, rtol=1e-8, atol=0.0),
-    'gaussian_profile': K('free', per_row=False, rtol=1e-8, aamp=1e-8, unit='data'),
+    'gaussian_profile': K('free', per_row=False, rtol=1e-8, aamp=1e-8, unit='data'), '_gfit': K('skip'),
     'data_radius': K('free', per_row=False), 'data_profile': K('free', per_row=False, scale='data'),   # documented as plain ndarray
    
     'xycen': K('xy', per_row=False), 'ee_at_r': K('free', per_row=False), 'r_at_ee': K('free', per_row=False),
@@ -1348,6 +1351,47 @@ def prep_profile(rng, scene):
                 which=_opt(rng, 'radial', 'cog'))
 
 
+def gfit_endpoints_equivalent(g1, g2):
+    """Arbitration for the 1-D Gaussian fit of a radial profile whose reported parameters differ between the two
+    frames by more than 1e-8. The reported value is the end point of an iterative least-squares fit (astropy
+    TRFLSQFitter, termination ftol/xtol/gtol 1e-8): on an ill-conditioned profile (seen: a ring-like profile fitted
+    with amplitude -180, parameters 1.5e-5 apart under transposition while the profiles agree to 1e-15) rounding
+    differences of the profile move the iteration at which it stops. Both end points are accepted iff (a) a fit
+    polished to machine precision from each end point on its own profile arrives at the same optimum in both
+    frames (1e-7) and (b) each reported end point is a minimum to the fitter's own tolerance: its sum of squared
+    residuals exceeds the polished one by < 1e-6 relative. Returns (True | False | None = fitter stopped short of
+    the minimum in one of the frames, info)."""
+    from scipy.optimize import least_squares
+    pol = []
+    for r, pr, th in (g1, g2):
+        fin = np.isfinite(r) & np.isfinite(pr)
+        r, pr = r[fin], pr[fin]
+        sc = max(float(np.max(np.abs(pr))), 1e-300)
+
+        def res(t, r=r, pr=pr, sc=sc):
+            return (t[0] * np.exp(-0.5 * ((r - 0.0) / t[1]) ** 2) - pr) / sc
+
+        t0 = np.array([th[0], abs(th[2])])
+        if not (np.all(np.isfinite(t0)) and t0[1] > 0):
+            return False, 'non-finite end point'
+        try:
+            sol = least_squares(res, t0, xtol=1e-15, ftol=1e-15, gtol=1e-15, x_scale=np.maximum(np.abs(t0), 1e-300),
+                                max_nfev=2000)
+        except Exception as exc:  # noqa: BLE001
+            return False, f'polish failed: {type(exc).__name__}'
+        ssr0, ssr1 = float(np.sum(res(t0) ** 2)), float(np.sum(sol.fun ** 2))
+        pol.append((sol.x, ssr0, ssr1))
+    (x1, a0, a1), (x2, b0, b1) = pol
+    same_opt = bool(np.allclose(x1, x2, rtol=1e-7, atol=0.0))
+    at_min = (a0 - a1) <= 1e-6 * max(a1, 1e-30) and (b0 - b1) <= 1e-6 * max(b1, 1e-30)
+    if not at_min:
+        # the trusted fitter stopped short of the minimum (seen: noise-like profile, reported (-180, 2.80) with
+        # SSR 2.11 while the minimum (-1492, 2.09) has 1.37): the reported value is a point on the iteration path,
+        # not a function of the profile up to rounding -> undecided, counted by the caller
+        return None, dict(polished=[x1.tolist(), x2.tolist()], ssr_excess=[a0 - a1, b0 - b1], ssr=[a1, b1])
+    return same_opt, dict(polished=[x1.tolist(), x2.tolist()], ssr_excess=[a0 - a1, b0 - b1], ssr=[a1, b1])
+
+
 def run_profile(s, o):
     from photutils.profiles import CurveOfGrowth, RadialProfile
     xy = tuple(float(v) for v in o['xycen'])
@@ -1372,6 +1416,9 @@ def run_profile(s, o):
                                                np.nan if unconstrained else gsd])
             out['gaussian_fwhm'] = np.nan if unconstrained else p.gaussian_fwhm
             out['gaussian_profile'] = p.gaussian_profile
+            # what the fit saw, for the end-point arbitration (gfit_endpoints_equivalent)
+            out['_gfit'] = (np.asarray(split_unit(p.radius)[0], float), np.asarray(split_unit(p.profile)[0], float),
+                            np.array([float(getattr(q, 'value', q)) for q in (gf.amplitude, gf.mean, gf.stddev)]))
         dr, dp = np.asarray(p.data_radius), p.data_profile
         dpv, un = split_unit(dp)
         idx = np.lexsort((np.asarray(dpv), dr))
